@@ -70,3 +70,19 @@ PROPS['C07'] = nav('C07', 'Non-trivial iff the script has a lookup miss later fo
                    'or >= 2 lookups with a name containing 0x00 or a byte >= 0x80; every BFS transition inside the root counts as one distinct case.')
 PROPS['C11'] = nav('C11', 'Non-trivial iff a get_raw/to_writer acts on a container nested >= 2 levels or after an earlier leave/raw/lookup; every BFS transition '
                    'inside the root counts as one distinct case.')
+
+APISEQ_RULE = ('cases: (max_depth 1..255, root kind, prefill bytes for the parser struct and state array, document = generated tree / mutation / '
+               'nesting chain / raw bytes up to 64 KiB, op script of <= 64 calls over the whole public parser API incl. re-init on the same buffer, on a '
+               'truncated prefix and with the other root kind, reset, verify, print, to_string with a generated capacity); struct, state array '
+               '(exactly max_depth entries), input (exactly len bytes) and every to_string destination are separate exactly-sized heap blocks. '
+               'Lookups are issued only while a protocol shadow says the cursor is inside an object (documented precondition). ')
+
+PROPS['C01'] = dict(
+    harness='apiseq', env={'VH_PROP': 'C01'},
+    rule=APISEQ_RULE + 'Non-trivial iff init was accepted and >= 1 advancing call succeeded, or init was rejected and further calls followed; '
+         'distinct = hash(document, executed op kinds).',
+    tiers=dict(
+        quick=[rc(30000, shards=6, max_size=250, corpus=CORPUS), fuzz(400000, shards=10, corpus=CORPUS)],
+        thorough=[rc(600000, shards=4, max_size=500, corpus=CORPUS), fuzz(40000000, shards=12, max_len=4096, corpus=CORPUS)],
+    ),
+)
